@@ -674,6 +674,13 @@ func runLargeSets(c *ctx) {
 func runRing(c *ctx) {
 	tp, rc := c.rc.Tape, c.rc
 	capacity := tp.Choose(6)
+	// Large rings (1 run in 300): values are pushed in batches and the buffer
+	// is compared with the model after each batch.
+	large := tp.Bool(1, 300)
+	if large {
+		capacity = tp.Range(500, 3000)
+		rc.Stats.Probe("large-ring")
+	}
 	rb := container.NewRingBuffer[int](uint(capacity))
 	var model []int // values pushed since creation or the last Clear
 	next := 1
@@ -728,12 +735,22 @@ func runRing(c *ctx) {
 	}
 
 	nOps := tp.Range(1, 30)
+	if large {
+		nOps = tp.Range(2, 10)
+	}
 	for i := 0; i < nOps; i++ {
 		op := tp.Choose(10)
 		c.mix(op)
 		rc.Steps++
 		switch {
 		case op < 6:
+			if large {
+				for n := tp.Range(1, capacity+capacity/2); n > 1; n-- {
+					rb.Push(next)
+					model = append(model, next)
+					next++
+				}
+			}
 			rb.Push(next)
 			model = append(model, next)
 			c.logf("Push(%d)", next)
